@@ -40,6 +40,16 @@ pub fn bin_sequences(wsize: usize, msize: usize, in_path: &str, out_path: &str, 
                         total_records_clone.fetch_add(1, std::sync::atomic::Ordering::Relaxed);
                         records_arc_clone.lock().unwrap().next()
                     };
+                    #[cfg(feature = "verif")]
+                    ktio::verif::emit(
+                        "m2s.took",
+                        [
+                            record.as_ref().map_or(ktio::verif::NONE, |r| r.n as u64),
+                            0,
+                            0,
+                            0,
+                        ],
+                    );
                     if let Some(record) = record {
                         let mgen = if wsize == 0 {
                             MinimiserGenerator::new(&record.seq, record.seq.len(), msize)
@@ -65,6 +75,8 @@ pub fn bin_sequences(wsize: usize, msize: usize, in_path: &str, out_path: &str, 
                         break;
                     }
                 }
+                #[cfg(feature = "verif")]
+                ktio::verif::emit("m2s.exit", [0; 4]);
             });
         }
     });
@@ -115,6 +127,16 @@ pub fn seq_to_min(wsize: usize, msize: usize, in_path: &str, out_path: &str, thr
                         total_records_clone.fetch_add(1, std::sync::atomic::Ordering::Relaxed);
                         records_arc_clone.lock().unwrap().next()
                     };
+                    #[cfg(feature = "verif")]
+                    ktio::verif::emit(
+                        "s2m.took",
+                        [
+                            record.as_ref().map_or(ktio::verif::NONE, |r| r.n as u64),
+                            0,
+                            0,
+                            0,
+                        ],
+                    );
                     if let Some(record) = record {
                         let mgen = if wsize == 0 {
                             MinimiserGenerator::new(&record.seq, record.seq.len(), msize)
@@ -147,6 +169,8 @@ pub fn seq_to_min(wsize: usize, msize: usize, in_path: &str, out_path: &str, thr
                         break;
                     }
                 }
+                #[cfg(feature = "verif")]
+                ktio::verif::emit("s2m.exit", [0; 4]);
             });
         }
     });
